@@ -14,6 +14,7 @@ mod c12;
 mod c13;
 mod c14;
 mod c15;
+mod c16;
 mod c17;
 mod c18;
 
@@ -39,6 +40,7 @@ fn prop(id: &str) -> Prop {
         "C12" => Prop { gen: c12::gen, run: c12::run },
         "C14" => Prop { gen: c14::gen, run: c14::run },
         "C15" => Prop { gen: c15::gen, run: c15::run },
+        "C16" => Prop { gen: c16::gen, run: c16::run },
         "C13" => Prop { gen: c13::gen, run: c13::run },
         _ => { eprintln!("unknown property {}", id); std::process::exit(2) }
     }
